@@ -448,14 +448,14 @@ func genC35(t *rapid.T) c35Case {
 // being omMillis(float).
 type xobs struct {
 	obs
-	omTs   bool // Ts/ST/exemplar timestamps are OpenMetrics floats (TsF etc.)
-	TsF    float64
-	STF    float64
-	ExTsF  []float64
-	fam    int
-	met    int
-	unset  bool // value of an UNTYPED metric left unset
-	raw    *xobs // C36: first payload series of the group this converted histogram stands for
+	omTs  bool // Ts/ST/exemplar timestamps are OpenMetrics floats (TsF etc.)
+	TsF   float64
+	STF   float64
+	ExTsF []float64
+	fam   int
+	met   int
+	unset bool  // value of an UNTYPED metric left unset
+	raw   *xobs // C36: first payload series of the group this converted histogram stands for
 }
 
 func typeText(k fmtKind, f xFam) string {
